@@ -403,6 +403,10 @@ func (ctx ecDecrypterSigner) decryptKey(headers rawHeader, recipient *recipientI
 	switch KeyAlgorithm(headers.Alg) {
 	case ECDH_ES:
 		// ECDH-ES uses direct key agreement, no key unwrapping necessary.
+		// RFC 7516 5.2 step 10: the encrypted key must then be empty.
+		if len(recipient.encryptedKey) != 0 {
+			return nil, ErrCryptoFailure
+		}
 		return deriveKey(string(headers.Enc), generator.keySize()), nil
 	case ECDH_ES_A128KW:
 		keySize = 16
